@@ -36,6 +36,13 @@ Method(kind) ==
     [] kind = "overload-class" -> N("func", "ovlc", {"overload", "classmethod"}, << Param("cls"), Param("a"), Res >>)
 Ctor == N("func", "__init__", {"ctor"}, << Param("self"), Param("x"), N("attr", "ia", {}, <<>>), N("attr", "_ib", {}, <<>>) >>)
 ClassAttr == N("attr", "ca", {"static"}, <<>>)
+\* legal but unusual Python: a name assigned twice in one statement (ca = ca = 1), an assignment into an attribute of an attribute in the
+\* same statement (self.ia = self.ia.sub = 1: `sub` is no attribute of the class), a function defined twice (the later definition wins;
+\* the earlier one has a single parameter zold)
+ClassAttrC == N("attr", "ca", {"static", "chained"}, <<>>)
+CtorD == N("func", "__init__", {"ctor"}, << Param("self"), Param("x"), N("attr", "ia", {"deep"}, <<>>), N("attr", "_ib", {}, <<>>) >>)
+Redef(f) == [f EXCEPT !.flags = f.flags \cup {"redefined"}]
+Earlier(f) == [f EXCEPT !.flags = (f.flags \ {"redefined"}) \cup {"earlier"}, !.ch = (IF f.ch # <<>> /\ f.ch[1].name = "self" THEN << Param("self") >> ELSE <<>>) \o << Param("zold") >>]
 EnumN(name, n) == N("enum", name, {}, [ j \in 1..n |-> N("inst", IF j = 1 THEN "AA" ELSE "BB", {}, <<>>) ])
 
 InnerKinds == {"none", "class", "class2", "privclass", "enum"}
@@ -70,8 +77,12 @@ EnumB(name, n, base) == [ EnumN(name, n) EXCEPT !.flags = { "base-" \o base } ]
 Enums == { EnumN("Col", 2), EnumN("Empty", 0), EnumN("_PCol", 2) }
 EnumsB == { EnumB("SCol", 2, "StrEnum"), EnumB("FCol", 2, "Flag"), EnumB("GCol", 2, "IntFlag"), EnumB("ICol", 2, "IntEnum") }    \* alone in their module only
 
+Unusual == { N("func", "fun", {"redefined"}, << Param("a"), Param("b"), Res >>), N("func", "noargs", {"redefined"}, <<>>),
+             N("class", "Cls", {"super-none"}, << ClassAttrC, CtorD, Redef(Method("inst")), Method("static") >>),
+             N("class", "Cls", {"super-none"}, << ClassAttr, CtorD >>), N("class", "Cls", {"super-none"}, << ClassAttrC, Redef(Method("static")) >>) }
 Modules(tier) ==
-  { N("module", "m", {}, << x >>) : x \in Classes(tier) \cup Funcs \cup Enums \cup EnumsB }
+  { N("module", "m", {}, << x >>) : x \in Classes(tier) \cup Funcs \cup Enums \cup EnumsB \cup Unusual }
+  \cup { N("module", "m", {}, << x, y >>) : x \in { u \in Unusual : u.k = "func" }, y \in { u \in Unusual : u.k = "class" } }
   \cup { N("module", "m", {}, << x, y >>) : x \in Funcs \cup Enums, y \in { c \in Classes(tier) : c.name = "Cls" /\ Len(c.ch) <= 2 } }
   \cup { N("module", "m", {}, << y, x, z >>) : x \in Funcs, z \in Enums, y \in { c \in Classes(tier) : c.name = "Cls" /\ Len(c.ch) = 1 } }
   \* a class that derives from an enum class of its own module (an enum only indirectly): it is walked like any class, members and methods
@@ -90,7 +101,9 @@ Bare(n) == [k |-> n.k, name |-> n.name, flags |-> n.flags]
 Walkable(n) == n.k \in {"module", "class", "func", "enum", "attr", "inst"}    \* params/results are created while entering the function
 RECURSIVE Events(_)
 RECURSIVE EventsOfSeq(_)
-Events(n) == << <<"enter", Bare(n), n.ch>> >> \o EventsOfSeq(SelectSeq(n.ch, Walkable)) \o << <<"leave", Bare(n), n.ch>> >>
+\* both definitions are walked, the later replaces the earlier (of decorated definitions only the later is walked)
+Events(n) == (IF "redefined" \in n.flags /\ n.flags \cap {"static", "classmethod", "property"} = {} THEN Events(Earlier(n)) ELSE <<>>)
+             \o << <<"enter", Bare(n), n.ch>> >> \o EventsOfSeq(SelectSeq(n.ch, Walkable)) \o << <<"leave", Bare(n), n.ch>> >>
 EventsOfSeq(s) == IF s = <<>> THEN <<>> ELSE Events(Head(s)) \o EventsOfSeq(Tail(s))
 
 VARIABLES mod, ev, stack, api, owns
@@ -107,9 +120,10 @@ Step ==
      IN IF e[1] = "enter"
         THEN LET id == IF n.k = "attr" THEN IdSkippingCtor(stack, n.name) ELSE IdOf(stack, IF n.k = "module" THEN "pkg/" \o n.name ELSE n.name)
                  kids == { [kind |-> c.k, id |-> id \o "/" \o c.name] : c \in { e[3][j] : j \in { j \in 1..Len(e[3]) : e[3][j].k \in {"param", "result"} } } }
+                 stale == IF "redefined" \in n.flags THEN { [kind |-> "param", id |-> id \o "/zold"] } ELSE {}     \* what only the earlier definition had
              IN /\ stack' = Append(stack, [id |-> id, name |-> n.name, k |-> n.k])
-                /\ api' = api \cup kids
-                /\ owns' = owns \cup { <<id, c.id>> : c \in kids }
+                /\ api' = (api \ stale) \cup kids
+                /\ owns' = (owns \ { <<id, c.id>> : c \in stale }) \cup { <<id, c.id>> : c \in kids }
         ELSE LET top == stack[Len(stack)]
                  rest == SubSeq(stack, 1, Len(stack) - 1)
                  ownerIdx == IF top.k = "attr" /\ rest # <<>> /\ rest[Len(rest)].name = "__init__" THEN Len(rest) - 1 ELSE Len(rest)
@@ -121,6 +135,8 @@ Next == Step
 Spec == Init /\ [][Next]_vars /\ WF_vars(Next)
 Done == ev > Len(Events(mod))
 
+Inv_C12_NoStale == Done => \A a \in api : \A o \in owns : o[2] = a.id => \E b \in api : b.id = o[1]
+Inv_C12_LaterWins == Done => ~\E a \in api : a.kind = "param" /\ \E o \in owns : o[2] = a.id /\ a.id = o[1] \o "/zold"
 Inv_C12_Balanced == Done => stack = <<>>
 Inv_C12_NoDup == \A a, b \in api : a.id = b.id => a = b
 Inv_C12_OneOwner == Done => \A a \in api : a.kind # "module" => Cardinality({ o \in owns : o[2] = a.id }) = 1
@@ -138,7 +154,7 @@ RECURSIVE Inventory(_, _, _)
 \* Scenarios arrive through JSON here, where the flag sets are sequences.
 Inventory(n, oid, cid) ==
   LET id == IF n.k = "attr" /\ cid # "" THEN cid \o "/" \o n.name ELSE oid \o "/" \o n.name
-      self == { [kind |-> n.k, id |-> id, flags |-> SeqToSet(n.flags) \ {"ctor", "deco"}] }
+      self == { [kind |-> n.k, id |-> id, flags |-> SeqToSet(n.flags) \ {"ctor", "deco", "redefined", "chained", "deep"}] }
   IN self \cup UNION { Inventory(n.ch[j], id, IF n.k = "func" /\ n.name = "__init__" THEN oid ELSE "") : j \in 1..Len(n.ch) }
 ExpectedInventory(m, mid) == UNION { Inventory(m.ch[j], mid, "") : j \in 1..Len(m.ch) }
 
@@ -146,12 +162,15 @@ ToSet(seq) == { seq[j] : j \in 1..Len(seq) }
 (* The walk of one module as the implementation performed it: obs.walk = Seq of <<phase, kind, name>> (assignment statements appear as *)
 (* kind "assign").  It must be exactly the event sequence of the machine above: same order, properly nested, nothing visited twice.   *)
 WalkKind(k) == IF k \in {"attr", "inst"} THEN "assign" ELSE k
-ExpectedWalk(m) == LET evs == Events(m) IN [ j \in 1..Len(evs) |-> << evs[j][1], WalkKind(evs[j][2].k), IF evs[j][2].k = "module" THEN "@module" ELSE evs[j][2].name >> ]
+WalkName(b) == IF b.k = "module" THEN "@module" ELSE IF "chained" \in b.flags THEN b.name \o "," \o b.name ELSE IF "deep" \in b.flags THEN b.name \o ",sub" ELSE b.name   \* an assignment is named by its targets
+ExpectedWalk(m) == LET evs == Events(m) IN [ j \in 1..Len(evs) |-> << evs[j][1], WalkKind(evs[j][2].k), WalkName(evs[j][2]) >> ]
 FirstDiffW(a, b) == LET n == IF Len(a) < Len(b) THEN Len(a) ELSE Len(b)
                         D == { j \in 1..n : a[j] # b[j] }
                     IN IF D = {} THEN n + 1 ELSE CHOOSE j \in D : \A k \in D : j <= k
+RECURSIVE Norm(_)      \* scenarios arrive through JSON, where the flag sets are sequences
+Norm(x) == [k |-> x.k, name |-> x.name, flags |-> SeqToSet(x.flags), ch |-> [ j \in 1..Len(x.ch) |-> Norm(x.ch[j]) ]]
 JudgeWalk(m, obs) ==
-  LET exp == ExpectedWalk(m)
+  LET exp == ExpectedWalk(Norm(m))
       got == [ j \in 1..Len(obs.walk) |-> << obs.walk[j][1], obs.walk[j][2], IF obs.walk[j][2] = "module" THEN "@module" ELSE obs.walk[j][3] >> ]
       d == FirstDiffW(exp, got)
   IN IF exp = got THEN {}
@@ -174,6 +193,7 @@ Judge(m, obs) ==
      (IF obs.valid /\ obs.schema = 1 THEN {} ELSE { [property |-> "C12", clause |-> "Valid", sig |-> "invalid-json-or-schema", expected |-> "valid, schemaVersion 1", observed |-> ToString(obs.schema)] })
   \cup (IF obs.sorted THEN {} ELSE { [property |-> "C12", clause |-> "Sorted", sig |-> "unsorted-list", expected |-> "sorted by id", observed |-> "unsorted"] })
   \cup { [property |-> "C12", clause |-> "NoDup", sig |-> "duplicate:" \o kindOf(d), expected |-> "unique ids", observed |-> d] : d \in ToSet(obs.dups) }
+  \cup { [property |-> "C12", clause |-> "OneOwner", sig |-> "listed-twice-by-its-owner:" \o kindOf(d), expected |-> "listed once", observed |-> d] : d \in ToSet(obs.twice) }
   \cup { [property |-> "C12", clause |-> "Complete", sig |-> "missing:" \o x.kind \o (IF "ctor" \in x.flags THEN "-ctor" ELSE "")
                                                                     \o (IF \E f \in x.flags : f \in {"base-StrEnum", "base-Flag", "base-IntFlag", "base-IntEnum"} THEN ":other-enum-base-class" ELSE ""),
             expected |-> x.id, observed |-> "absent"]
